@@ -28,7 +28,7 @@ const REC_NAMES: [&str; 7] =
 fn c15_value_for(s: &mut Src, name_idx: usize) -> String {
     let v: &[&str] = match name_idx {
         0 => &["0", "5", "007", "4294967295", "4294967296", "-1", "+5", "", "1 2", "\u{ff15}", "5;", "0x5", "99999999999999999999", "+", "-0", "1e3"],
-        1 | 5 => &["application/json", "text/plain", "text/html", "Text/Plain", "", "application/json; charset=utf-8", "text/plain,application/json", "\u{a0}text/plain\u{a0}", "application/json2"],
+        1 | 5 => &["application/json", "text/plain", "text/html", "Text/Plain", "", "application/json; charset=utf-8", "text/plain,application/json", "\u{a0}text/plain\u{a0}", "application/json2", "text/plain x", "application/json ;q=0", "x text/plain", "application/json\ttext/plain"],
         2 => &["100-continue", "100-Continue", "103-checkpoint", "", "100-continue, x", "100-continue\u{3000}"],
         3 => &["chunked", "identity", "gzip", "Chunked", "", "chunked, gzip", "identity;q=0"],
         4 => &["x", "", "Firecracker API", "a:b"],
@@ -421,12 +421,74 @@ fn c15_numbers_enum(tier: Tier, shard: u64, nshards: u64, f: &mut dyn FnMut(&[u6
     }
 }
 
+/// every single-byte substitution / insertion / deletion in every recognised header name:
+/// params = [name index, op (0 substitute, 1 insert, 2 delete), position]; all 256 byte values inside
+fn c15_name_edits(input: &Input, obs: &mut Obs) -> Result<(), Fail> {
+    let p = input.params();
+    let name = REC_NAMES[p[0] as usize].as_bytes();
+    let pos = p[2] as usize;
+    // a value that is observable if and only if the name is (still) recognised
+    let val: &[u8] = match p[0] {
+        0 => b"17",
+        1 => b"bogus/type",
+        2 => b"100-continue",
+        3 => b"chunked",
+        4 => b"zzz",
+        5 => b"application/json",
+        _ => b"identity;q=0",
+    };
+    let mut cnt = 0u64;
+    let values: Vec<Option<u8>> = if p[1] == 2 { vec![None] } else { (0..=255u8).map(Some).collect() };
+    for byte in values {
+        let mut n = name.to_vec();
+        match (p[1], byte) {
+            (0, Some(b)) => n[pos] = b,
+            (1, Some(b)) => n.insert(pos, b),
+            _ => {
+                n.remove(pos);
+            }
+        }
+        let mut line = n.clone();
+        line.extend_from_slice(b": ");
+        line.extend_from_slice(val);
+        // a substituted CR followed by ... cannot form CRLF here (names contain no LF), LF alone is fine
+        if line.windows(2).any(|w| w == b"\r\n") {
+            continue;
+        }
+        c15_check_lines(&[line.clone()], 0)?;
+        c15_check_lines(&[b"X-First: 1".to_vec(), line], 1)?;
+        cnt += 2;
+    }
+    obs.extra_evals = cnt.saturating_sub(1);
+    obs.extra_nontrivial = cnt;
+    if obs.want_render {
+        obs.render = format!("name \"{}\" op {} at position {} x all 256 byte values", REC_NAMES[p[0] as usize], p[1], pos);
+    }
+    Ok(())
+}
+
+fn c15_name_edits_enum(_tier: Tier, shard: u64, nshards: u64, f: &mut dyn FnMut(&[u64]) -> bool) {
+    let mut c = 0u64;
+    for (ni, name) in REC_NAMES.iter().enumerate() {
+        for op in 0..3u64 {
+            let npos = if op == 1 { name.len() + 1 } else { name.len() };
+            for pos in 0..npos as u64 {
+                c += 1;
+                if c % nshards == shard && !f(&[ni as u64, op, pos]) {
+                    return;
+                }
+            }
+        }
+    }
+}
+
 fn c15_plan(tier: Tier) -> Vec<Job> {
     let q = tier == Tier::Quick;
     vec![
         Job { sub: "blocks", kind: JobKind::Pbt { cases: if q { 1_000_000 } else { 15_000_000 }, max_len: 160 }, smallbuf: false },
         Job { sub: "pairs", kind: JobKind::Enum { f: c15_pairs_enum, bound: "all ordered pairs (thorough: triples) of 35 curated header lines x 3 block terminators" }, smallbuf: false },
         Job { sub: "numbers", kind: JobKind::Enum { f: c15_numbers_enum, bound: "every Content-Length value 0..70143 (thorough: 0..2^20-1) in the plain spelling, 0..4095 in four other spellings (no space, '+', leading zero, '-'), and blocks around 2^31, 2^32, 10^9, 10^10, 2^63" }, smallbuf: false },
+        Job { sub: "name_edits", kind: JobKind::Enum { f: c15_name_edits_enum, bound: "every single-byte substitution (256 values), insertion (256 values) and deletion at every position of each of the 7 recognised names, as a line of its own and behind another line" }, smallbuf: false },
         Job { sub: "cases", kind: JobKind::Enum { f: c15_cases_enum, bound: "7 recognised names x every letter-case pattern (names <= 10 letters: all 2^n; longer: every k-th pattern) x 6 paddings" }, smallbuf: false },
     ]
 }
@@ -434,7 +496,7 @@ fn c15_plan(tier: Tier) -> Vec<Job> {
 pub fn c15() -> PropDef {
     PropDef {
         id: "C15",
-        subs: vec![("blocks", c15_blocks), ("pairs", c15_pairs), ("cases", c15_cases), ("raw", crate::props::raw::c15_raw), ("numbers", c15_numbers)],
+        subs: vec![("blocks", c15_blocks), ("pairs", c15_pairs), ("cases", c15_cases), ("raw", crate::props::raw::c15_raw), ("numbers", c15_numbers), ("name_edits", c15_name_edits)],
         plan: c15_plan,
         rule: "case = header block of 0..6 lines (recognised names in letter-case patterns and SP/HTAB/Unicode/CR/LF padding with supported/unsupported/malformed values, other names, 0/1/several colons, invalid UTF-8) plus one raw Accept-Encoding value; oracle = independent statement of the header rules, checked three ways (block vs rules, block vs line-by-line fold, per-line outcome class) + Encoding::try_from vs identity rule; non-trivial = a recognised name with non-canonical case or padding, a duplicate name, or a faulty line",
         assumptions: vec![
@@ -657,6 +719,19 @@ fn c16_misc(_input: &Input, obs: &mut Obs) -> Result<(), Fail> {
             }
         }
     }
+    // a canonical token next to other content, separated by whitespace, is not the token
+    for m in ["text/plain", "application/json"] {
+        for w in [" ", "\t", "\n", "\u{a0}", "  "] {
+            for junk in ["x", ";q=0", "text/plain", "application/json", "\0", ",", "*/*"] {
+                for s in [format!("{}{}{}", m, w, junk), format!("{}{}{}", junk, w, m), format!(" {}{}{} ", m, w, junk)] {
+                    n += 1;
+                    if MediaType::try_from(s.as_bytes()).is_ok() {
+                        return Err(Fail::new("C16:media-padding", format!("MediaType::try_from(\"{}\") accepted", esc(s.as_bytes()))));
+                    }
+                }
+            }
+        }
+    }
     // round trips
     for m in [Method::Get, Method::Put, Method::Patch] {
         n += 1;
@@ -837,6 +912,45 @@ fn c16_uris_abs_enum(tier: Tier, shard: u64, nshards: u64, f: &mut dyn FnMut(&[u
     }
 }
 
+/// long URIs: lengths around powers of two. params = [shape, length of the filler run]
+fn c16_uri_long(input: &Input, obs: &mut Obs) -> Result<(), Fail> {
+    let p = input.params();
+    let k = p[1] as usize;
+    let fill = "a".repeat(k);
+    let uri = match p[0] {
+        0 => format!("http://{}/x", fill),
+        1 => format!("http://{}", fill),
+        2 => format!("/{}", fill),
+        3 => format!("{}/x", fill),
+        _ => format!("http://h/{}/y", fill),
+    };
+    obs.nontrivial = uri_check(&uri)?;
+    if obs.want_render {
+        obs.render = format!("shape {} with a run of {} bytes (URI of {} bytes)", p[0], k, uri.len());
+    }
+    Ok(())
+}
+
+fn c16_uri_long_enum(tier: Tier, shard: u64, nshards: u64, f: &mut dyn FnMut(&[u64]) -> bool) {
+    let mut c = 0u64;
+    let mut ks: Vec<u64> = (0..=300).collect();
+    for center in [1u64 << 10, 1 << 12, 1 << 15, 1 << 16, 1 << 17] {
+        let w = if tier == Tier::Quick { 20 } else { 64 };
+        ks.extend(center - w..=center + w);
+    }
+    if tier == Tier::Thorough {
+        ks.extend((1u64 << 20) - 12..=(1u64 << 20) + 12);
+    }
+    for shape in 0..5u64 {
+        for k in &ks {
+            c += 1;
+            if c % nshards == shard && !f(&[shape, *k]) {
+                return;
+            }
+        }
+    }
+}
+
 /// random longer URIs
 fn c16_uri_random(input: &Input, obs: &mut Obs) -> Result<(), Fail> {
     let mut s = Src::new(input.bytes());
@@ -864,6 +978,7 @@ fn c16_plan(tier: Tier) -> Vec<Job> {
         Job { sub: "misc", kind: JobKind::Enum { f: c16_misc_enum, bound: "media types with 0..2 of 8 whitespace kinds on each side; round trips of all values; all 11 status codes" }, smallbuf: false },
         Job { sub: "uris", kind: JobKind::Enum { f: c16_uris_enum, bound: if q { "all URIs of <= 7 symbols over {h,t,p,:,/,a,.,%,U+00E9}" } else { "all URIs of <= 9 symbols over {h,t,p,:,/,a,.,%,U+00E9}" } }, smallbuf: false },
         Job { sub: "uris_abs", kind: JobKind::Enum { f: c16_uris_abs_enum, bound: if q { "\"http://\" followed by every string of <= 6 symbols over the same alphabet" } else { "\"http://\" followed by every string of <= 8 symbols over the same alphabet" } }, smallbuf: false },
+        Job { sub: "uri_long", kind: JobKind::Enum { f: c16_uri_long_enum, bound: "5 URI shapes x filler runs of every length 0..300 and +-20 (thorough +-64) around 2^10, 2^12, 2^15, 2^16, 2^17 (thorough also 2^20)" }, smallbuf: false },
         Job { sub: "uri_random", kind: JobKind::Pbt { cases: if q { 300_000 } else { 5_000_000 }, max_len: 48 }, smallbuf: false },
     ]
 }
@@ -871,7 +986,7 @@ fn c16_plan(tier: Tier) -> Vec<Job> {
 pub fn c16() -> PropDef {
     PropDef {
         id: "C16",
-        subs: vec![("tokens", c16_tokens), ("edits", c16_edits), ("misc", c16_misc), ("uris", c16_uris), ("uris_abs", c16_uris_abs), ("uri_random", c16_uri_random)],
+        subs: vec![("tokens", c16_tokens), ("edits", c16_edits), ("misc", c16_misc), ("uris", c16_uris), ("uris_abs", c16_uris_abs), ("uri_long", c16_uri_long), ("uri_random", c16_uri_random)],
         plan: c16_plan,
         rule: "bounded-exhaustive: every string of the stated alphabets/lengths and every single-byte edit of every canonical token is evaluated once against the canonical-spelling table; URIs against the reference absolute-path function and the suffix invariant; non-trivial = input within edit distance 1 of a canonical token (or accepted), or a URI containing '/'; cases are distinct by construction (each enumerated once)",
         assumptions: vec!["URIs are reached through Request::try_from(b\"GET <uri> HTTP/1.1\\r\\n\\r\\n\").uri() (Uri has no public constructor)"],
@@ -899,7 +1014,7 @@ impl EndpointHandler<u32> for Rec {
     }
 }
 
-const PATHS: [&str; 10] = ["", "/", "/a", "/a/", "/a/b", "/ab", "/a:b", ":", "/GET:/a", "/api/a"];
+const PATHS: [&str; 12] = ["", "/", "/a", "/a/", "/a/b", "/ab", "/a:b", ":", "/GET:/a", "/api/a", "/fwd/http://up/a", "/\u{e9}/a"];
 const PREFIXES: [&str; 4] = ["", "/api", "/a", "/api/"];
 
 fn c17_run(prefix: &str, regs: &[(u8, usize)], reqs: &[(u8, String)], server_id: &str) -> Result<(usize, usize, usize), Fail> {
@@ -979,11 +1094,12 @@ fn c17_uri_for(s: &mut Src, prefix: &str) -> String {
     let path = PATHS[s.below(PATHS.len())];
     let with_prefix = !s.chance(60);
     let p = if with_prefix { format!("{}{}", prefix, path) } else { path.to_string() };
-    match s.weighted(&[10, 5, 2, 2]) {
+    match s.weighted(&[10, 5, 2, 2, 2]) {
         0 => {
             if p.is_empty() { "/".into() } else { p }
         }
         1 => format!("http://host{}", p),
+        4 => format!("http://h\u{e9}st.\u{4f8b}{}", p),
         2 => format!("http://host:8080{}", p),
         _ => ["*", "x", "http://", "http://host", "a/b"][s.below(5)].to_string(),
     }
@@ -1032,13 +1148,14 @@ fn c17_small(input: &Input, obs: &mut Obs) -> Result<(), Fail> {
     let mut reqs = Vec::new();
     for m in 0..3u8 {
         for path in PATHS.iter() {
-            for form in 0..3 {
+            for form in 0..4 {
                 for wp in 0..2 {
                     let pp = if wp == 0 { format!("{}{}", prefix, path) } else { path.to_string() };
                     let uri = match form {
                         0 => pp,
                         1 => format!("http://h{}", pp),
-                        _ => format!("http://h:1{}", pp),
+                        2 => format!("http://h:1{}", pp),
+                        _ => format!("http://\u{e9}\u{4f8b}{}", pp),
                     };
                     if uri.is_empty() {
                         continue;
@@ -1159,7 +1276,7 @@ fn c17_plan(tier: Tier) -> Vec<Job> {
     vec![
         Job { sub: "tables", kind: JobKind::Pbt { cases: if q { 300_000 } else { 6_000_000 }, max_len: 80 }, smallbuf: false },
         Job { sub: "long", kind: JobKind::Enum { f: c17_long_enum, bound: "sibling routes on paths of every length 2..399 (thorough: ..879), with and without a prefix, probed with the exact path, one-byte extensions, a truncation, 3 methods, origin and absolute form" }, smallbuf: false },
-        Job { sub: "small", kind: JobKind::Enum { f: c17_small_enum, bound: "4 prefixes x all ordered route tables of <= 2 (quick) / <= 3 (thorough) registrations over 3 methods x 10 paths (duplicates included) x all requests over the same alphabet in origin-form and two absolute forms, with and without the prefix" }, smallbuf: false },
+        Job { sub: "small", kind: JobKind::Enum { f: c17_small_enum, bound: "4 prefixes x all ordered route tables of <= 2 (quick) / <= 3 (thorough) registrations over 3 methods x 10 paths (duplicates included) x all requests over the same alphabet in origin-form and three absolute forms (one with a non-ASCII authority), with and without the prefix" }, smallbuf: false },
     ]
 }
 
@@ -1596,6 +1713,12 @@ fn fields_eq(q: &Request, d: &Delivered) -> Option<String> {
 }
 
 pub fn c14_check(slice: &[u8], obs: &mut Obs) -> Result<(), Fail> {
+    c14_check_sched(slice, &[], false, obs)
+}
+
+/// same, with the slice fed in pieces: `cuts` are read boundaries, `idle` puts one read that
+/// finds nothing (EAGAIN) at the first cut. The connection is "fed the same bytes" either way.
+pub fn c14_check_sched(slice: &[u8], cuts: &[usize], idle: bool, obs: &mut Obs) -> Result<(), Fail> {
     let b = buf_size();
     let one = Request::try_from(slice, None);
     // REF as referee for comparability (line lengths, payload) and for the report.
@@ -1610,9 +1733,23 @@ pub fn c14_check(slice: &[u8], obs: &mut Obs) -> Result<(), Fail> {
     let mut delivered: Vec<Delivered> = Vec::new();
     let mut conn_err: Option<RRes> = None;
     let mut guard = 0;
-    while run.remaining() > 0 && guard < slice.len() + 8 {
+    let mut targets: Vec<usize> = cuts.iter().copied().filter(|c| *c > 0 && *c < slice.len()).collect();
+    targets.sort_unstable();
+    let mut idle_pending = idle && !targets.is_empty();
+    while run.remaining() > 0 && guard < slice.len() + 16 {
         guard += 1;
-        let st = run.read(ReadEv::Data { want: b, fds: vec![] }).map_err(|m| Fail::new("C14:misuse", m))?.clone();
+        if idle_pending && Some(&run.consumed) == targets.first() {
+            idle_pending = false;
+            let st = run.read(ReadEv::Eagain).map_err(|m| Fail::new("C14:misuse", m))?.clone();
+            if !matches!(st.res, RRes::ReadErr(_)) {
+                conn_err = Some(st.res);
+                break;
+            }
+            obs.label("idle_read_between_pieces");
+            continue;
+        }
+        let next = targets.iter().copied().find(|t| *t > run.consumed).unwrap_or(slice.len());
+        let st = run.read(ReadEv::Data { want: (next - run.consumed).min(b).max(1), fds: vec![] }).map_err(|m| Fail::new("C14:misuse", m))?.clone();
         delivered.extend(st.reqs.iter().cloned());
         match st.res {
             RRes::Ok => {}
@@ -1734,7 +1871,24 @@ fn c14_diff(input: &Input, obs: &mut Obs) -> Result<(), Fail> {
             slice.truncate(cut);
         }
     }
-    c14_check(&slice, obs)?;
+    // how the connection gets the bytes: whole, or in up to three pieces with an idle read
+    let ncuts = s.weighted(&[6, 5, 4]);
+    let mut cuts: Vec<usize> = Vec::new();
+    for k in 0..ncuts {
+        if k == 0 && s.chance(100) {
+            // exactly at the end of the header block
+            if let Some(i) = find_sub(&slice, b"\r\n\r\n") {
+                cuts.push(i + 4);
+                continue;
+            }
+        }
+        cuts.push(s.below(slice.len() + 1));
+    }
+    let idle = ncuts > 0 && s.chance(100);
+    if ncuts > 0 {
+        obs.label("slice_fed_in_pieces");
+    }
+    c14_check_sched(&slice, &cuts, idle, obs)?;
     obs.nontrivial = find_sub(&slice, b"\r\n").map(|i| slice.len() > i + 4).unwrap_or(false);
     for n in &notes.0 {
         obs.label(n);
@@ -1806,7 +1960,13 @@ fn c14_lengths(input: &Input, obs: &mut Obs) -> Result<(), Fail> {
                 let mut slice = format!("{} /a HTTP/1.{}\r\nContent-Length: {}\r\n\r\n", m, mi % 2, n).into_bytes();
                 slice.extend(filler(0, n as u8, supplied));
                 let mut o = Obs::default();
-                c14_check(&slice, &mut o)?;
+                // whole, or cut in the middle of the first line and at the end of the header block, with an idle read
+                if n % 3 == 0 {
+                    c14_check(&slice, &mut o)?;
+                } else {
+                    let hdr_end = slice.len() - supplied;
+                    c14_check_sched(&slice, &[5, hdr_end], n % 3 == 2, &mut o)?;
+                }
                 cnt += 1;
             }
         }
